@@ -253,6 +253,23 @@ pub fn run_hist(h: &[Opt]) -> Option<[u8; 16]> {
     .map(|(b, _)| b)
 }
 
+pub const HADDR2: u64 = 0x0000_7654_3210_f000;
+/// history, then set_handler_addr again: the gate must be the default gate for the new address whatever it held before
+pub fn run_hist_then_reset(h: &[Opt]) -> Option<([u8; 16], u64)> {
+    catch(|| {
+        let mut e: Entry<HandlerFunc> = Entry::missing();
+        {
+            let o = unsafe { e.set_handler_addr(VirtAddr::new(HADDR)) };
+            for &a in h {
+                apply(o, a);
+            }
+        }
+        unsafe { e.set_handler_addr(VirtAddr::new(HADDR2)) };
+        (gate_bytes(&e), e.handler_addr().as_u64())
+    })
+    .ok()
+}
+
 fn expected_after(g: Gate, a: Opt) -> Gate {
     let mut e = g;
     match a {
@@ -303,6 +320,22 @@ fn options_search(r: &mut Rep) {
                         seen.insert(b, h2);
                         q.push_back(b);
                     }
+                }
+            }
+        }
+    }
+    // from every reachable gate state: giving the entry a handler address again yields the default gate
+    let cs = native_cs();
+    for (_, hist) in seen.iter() {
+        r.transitions += 1;
+        let case = format!("gatereset {:?}", hist);
+        match run_hist_then_reset(hist) {
+            None => r.viol("C12|set_handler_addr|panics-on-a-configured-entry", &case, ""),
+            Some((b, ha)) => {
+                let g = decode_gate(&b);
+                let exp = Gate { offset: HADDR2, selector: cs, ist: 0, zero1: 0, typ: 0xE, zero2: 0, dpl: 0, p: true, reserved: 0 };
+                if g != exp || ha != HADDR2 {
+                    r.viol("C12|set_handler_addr|does-not-reset-options-of-a-previously-configured-entry", &case, &format!("{:x?} expected {:x?}", g, exp));
                 }
             }
         }
